@@ -539,6 +539,9 @@ func (al *ListLiteral) String() string {
 
 type Ident struct {
 	Name string
+	// IsFunc is true if the identifier denotes a static function and is
+	// not hidden by a local binding of the same name.
+	IsFunc bool
 	Line
 }
 
@@ -1185,7 +1188,7 @@ func (p *Parser[V]) parseLiteral(tokenizer *Tokenizer, idents Identifiers[V]) (A
 				if i, ok := idents(name); ok {
 					if i.IsConst {
 						if i.IsFunc {
-							return &Ident{Name: name, Line: t.Line}, nil
+							return &Ident{Name: name, IsFunc: true, Line: t.Line}, nil
 						} else {
 							return &Const[V]{Value: i.Const, Line: t.Line}, nil
 						}
